@@ -1686,3 +1686,279 @@ Proof.
   destruct (ds_map s'); [|discriminate]. destruct (ds_stats s') as [t|]; [|discriminate].
   destruct (feq (su_count t) f64_zero && negb (ds_plain_empty s')); discriminate.
 Qed.
+(* ================================================================== *)
+(* 10. G4: the encoders emit the grammar (sparse store, plain sketch)  *)
+(* ================================================================== *)
+Fixpoint sparse_deltas (prev : Z) (l : list (Z * W)) : list (Z * f64) :=
+  match l with
+  | [] => []
+  | ic :: tl => (fst ic - prev, q2f (snd ic))%Z :: sparse_deltas (fst ic) tl
+  end.
+Definition sparse_blocks (neg : bool) (l : list (Z * W)) : stream :=
+  match l with [] => [] | _ => [BStore neg (IndexDeltasAndCounts (sparse_deltas 0 l))] end.
+
+Lemma sparse_deltas_length : forall l prev, length (sparse_deltas prev l) = length l.
+Proof. induction l as [|ic l IH]; intros prev; cbn [sparse_deltas length]; [reflexivity|now rewrite IH]. Qed.
+
+Lemma enc_sparse_fold : forall (l : list (Z * W)) prev out,
+  snd (fold_left (fun (acc : Z * list byte) (ic : Z * W) =>
+                    let '(prev, out) := acc in (fst ic, out ++ enc_sv (fst ic - prev) ++ enc_w (snd ic))) l (prev, out))
+  = out ++ concat (map (fun dc => enc_sv (fst dc) ++ Varfloat.enc_vf (snd dc)) (sparse_deltas prev l)).
+Proof.
+  induction l as [|ic l IH]; intros prev out; cbn [fold_left sparse_deltas map concat fst snd].
+  - now rewrite app_nil_r.
+  - rewrite IH. unfold enc_w. rewrite <- !app_assoc. reflexivity.
+Qed.
+
+Definition ty_of (neg : bool) : N := if neg then ft_negative else ft_positive.
+
+(* SparseStore.Encode emits one IndexDeltasAndCounts block (nothing for an empty store) *)
+Theorem enc_sparse_grammar l neg : enc_sparse l (ty_of neg) = serialize (sparse_blocks neg l).
+Proof.
+  destruct l as [|ic l]; [reflexivity|].
+  unfold sparse_blocks, serialize. cbn [map concat]. rewrite app_nil_r.
+  unfold enc_sparse. rewrite enc_sparse_fold. cbn [app].
+  rewrite ser_block_store. cbn [ser_bins fst snd]. rewrite sparse_deltas_length.
+  destruct neg; reflexivity.
+Qed.
+
+(* weights that the wire carries exactly *)
+Definition wexact (w : W) : Prop := exact_f (q2f w) /\ f2q (q2f w) = w.
+Lemma wexact_wire w : wexact w -> wire_w (q2f w) = w.
+Proof. intros [H1 H2]. rewrite wire_w_f. unfold exact_f in H1. rewrite H1. exact H2. Qed.
+
+Lemma wrap_i64_id z : i64 z -> wrap_i64 z = z.
+Proof. unfold i64, wrap_i64. intros H. rewrite Z.mod_small by lia. lia. Qed.
+
+Definition sparse_wire_ok (l : list (Z * W)) : Prop :=
+  (N.of_nat (length l) < W64)%N /\ Forall (fun ic => i64 (fst ic)) l
+  /\ Forall (fun dc => i64 (fst dc)) (sparse_deltas 0 l) /\ Forall (fun ic => wexact (snd ic)) l.
+
+Lemma sparse_deltas_int32 : forall l prev, idx_ok prev -> Forall (fun ic => idx_ok (fst ic)) l ->
+  Forall (fun dc => i64 (fst dc)) (sparse_deltas prev l).
+Proof.
+  induction l as [|ic l IH]; intros prev Hp H; cbn [sparse_deltas]; [constructor|].
+  inversion H as [|x y Hi Hl]; subst. constructor; [|apply IH; assumption].
+  cbn [fst]. unfold idx_ok, MinInt32, MaxInt32, i64 in *. lia.
+Qed.
+Lemma sparse_wire_ok_int32 l : (N.of_nat (length l) < W64)%N ->
+  Forall (fun ic => idx_ok (fst ic)) l -> Forall (fun ic => wexact (snd ic)) l -> sparse_wire_ok l.
+Proof.
+  intros HL Hi Hw. split; [exact HL|]. split; [|split; [|exact Hw]].
+  - eapply Forall_impl; [|exact Hi]. intros ic. unfold idx_ok, MinInt32, MaxInt32, i64. lia.
+  - apply sparse_deltas_int32; [|exact Hi]. unfold idx_ok, MinInt32, MaxInt32. lia.
+Qed.
+
+Lemma sparse_deltas_bins : forall l prev, Forall (fun ic => i64 (fst ic)) l -> Forall (fun ic => wexact (snd ic)) l ->
+  idc_bins wire_w prev (sparse_deltas prev l) = l.
+Proof.
+  induction l as [|[i w] l IH]; intros prev Hi Hw; cbn [sparse_deltas idc_bins fst snd]; [reflexivity|].
+  inversion Hi as [|x y Hi1 Hil]; subst. inversion Hw as [|x y Hw1 Hwl]; subst. cbn [fst snd] in *. cbv zeta.
+  replace (prev + (i - prev))%Z with i by lia. rewrite wrap_i64_id by exact Hi1.
+  rewrite wexact_wire by exact Hw1. rewrite IH by assumption. reflexivity.
+Qed.
+
+Lemma sparse_blocks_wf neg l : sparse_wire_ok l -> wf_stream (sparse_blocks neg l).
+Proof.
+  intros [HL [_ [Hd _]]]. destruct l as [|ic l]; [constructor|].
+  constructor; [|constructor]. cbn [wf_block wf_bins]. rewrite sparse_deltas_length. split; assumption.
+Qed.
+Lemma sparse_blocks_bins (neg : bool) l : sparse_wire_ok l ->
+  (if neg then stream_neg_bins (sparse_blocks neg l) else stream_pos_bins (sparse_blocks neg l)) = l
+  /\ (if neg then stream_pos_bins (sparse_blocks neg l) else stream_neg_bins (sparse_blocks neg l)) = [].
+Proof.
+  intros [_ [Hi [_ Hw]]]. destruct l as [|ic l]; [destruct neg; split; reflexivity|].
+  pose proof (sparse_deltas_bins (ic :: l) 0%Z Hi Hw) as H.
+  destruct neg; unfold stream_pos_bins, stream_neg_bins, sparse_blocks; cbn [map concat block_pos_bins block_neg_bins];
+    rewrite ?app_nil_r, ?bins_of_block_eq; cbn [bins_of_block_w]; split; (exact H || reflexivity).
+Qed.
+Lemma sparse_blocks_exact neg l : sparse_wire_ok l -> exact_stream (sparse_blocks neg l).
+Proof.
+  intros [_ [_ [_ Hw]]]. destruct l as [|ic l]; [constructor|]. constructor; [|constructor].
+  cbn [block_weights bins_weights]. clear neg. revert Hw. generalize 0%Z. generalize (ic :: l). clear.
+  induction l as [|ic l IH]; intros prev Hw; cbn [sparse_deltas map snd]; [constructor|].
+  inversion Hw as [|x y H1 Hl]; subst. constructor; [apply H1|apply IH; exact Hl].
+Qed.
+
+(* the reference decoder reads the encoded store back *)
+Theorem enc_sparse_ref_decode l : sparse_wire_ok l ->
+  exists c, ref_decode (enc_sparse l ft_positive) = Some c /\ c_pos c = bins_of_list l /\ c_neg c = [].
+Proof.
+  intros Hok. eexists. split.
+  - change ft_positive with (ty_of false). rewrite enc_sparse_grammar.
+    apply ref_decode_serialize; [apply sparse_blocks_wf; exact Hok|].
+    apply exact_stable_stream, sparse_blocks_exact; exact Hok.
+  - destruct (sparse_blocks_bins false l Hok) as [H1 H2]. rewrite sem_pos, sem_neg, H1, H2. split; reflexivity.
+Qed.
+Theorem enc_sparse_ref_decode_neg l : sparse_wire_ok l ->
+  exists c, ref_decode (enc_sparse l ft_negative) = Some c /\ c_neg c = bins_of_list l /\ c_pos c = [].
+Proof.
+  intros Hok. eexists. split.
+  - change ft_negative with (ty_of true). rewrite enc_sparse_grammar.
+    apply ref_decode_serialize; [apply sparse_blocks_wf; exact Hok|].
+    apply exact_stable_stream, sparse_blocks_exact; exact Hok.
+  - destruct (sparse_blocks_bins true l Hok) as [H1 H2]. rewrite sem_pos, sem_neg, H1, H2. split; reflexivity.
+Qed.
+
+(* ---- sketch level: DDSketch.Encode with sparse stores ---- *)
+Lemma serialize_one b : serialize [b] = ser_block b.
+Proof. unfold serialize. cbn [map concat]. apply app_nil_r. Qed.
+Definition plain_sparse (s : sketch) (p n : bins) : Prop := sk_pos s = SS p /\ sk_neg s = SS n /\ sk_stats s = None.
+Definition zero_blocks (z : W) : stream := if weqb z w0 then [] else [BZeroCount (q2f z)].
+Definition map_block (m : mapid) : block := BMapping (mk_kind m) (mk_gamma m) (mk_off m).
+Definition sketch_stream (m : mapid) (p n : bins) (z : W) (omit : bool) : stream :=
+  zero_blocks z ++ (if omit then [] else [map_block m]) ++ sparse_blocks false p ++ sparse_blocks true n.
+
+Theorem enc_sketch_grammar s p n omit : plain_sparse s p n ->
+  enc_sketch s omit = (s, serialize (sketch_stream (sk_map s) p n (sk_zero s) omit)).
+Proof.
+  intros [Hp [Hn Hs]]. destruct s as [m sp sn z st]. cbn [sk_pos sk_neg sk_stats sk_map sk_zero] in *. subst.
+  unfold enc_sketch. cbn [sk_pos sk_neg sk_stats sk_map sk_zero enc_store]. unfold sp_foreach, x_visit.
+  change ft_positive with (ty_of false). change ft_negative with (ty_of true).
+  rewrite !enc_sparse_grammar. unfold sketch_stream. rewrite !serialize_app. f_equal.
+  cbn [app]. f_equal; [|f_equal].
+  - unfold zero_blocks. destruct (weqb z w0); [reflexivity|]. rewrite serialize_one. reflexivity.
+  - destruct omit; [reflexivity|]. rewrite serialize_one. reflexivity.
+Qed.
+
+(* encoding does not depend on any buffer: Encode(b) appends [snd (enc_sketch ..)] to b by construction,
+   and does not change the sketch *)
+Corollary encode_appends s p n omit (buf : list byte) : plain_sparse s p n ->
+  fst (enc_sketch s omit) = s /\
+  buf ++ snd (enc_sketch s omit) = buf ++ serialize (sketch_stream (sk_map s) p n (sk_zero s) omit).
+Proof. intros H. rewrite (enc_sketch_grammar s p n omit H). split; reflexivity. Qed.
+
+Definition map_valid (m : mapid) : Prop := kind_ok (mk_kind m) /\ fle (mk_gamma m) f64_one = false.
+Definition sketch_wire_ok (p n : bins) (z : W) : Prop := sparse_wire_ok p /\ sparse_wire_ok n /\ wexact z.
+
+Lemma kind_ok_lt k : kind_ok k -> (k < 64)%N.
+Proof. intros [H|[H|H]]; subst; reflexivity. Qed.
+Lemma sketch_stream_wf m p n z omit : map_valid m -> sketch_wire_ok p n z -> wf_stream (sketch_stream m p n z omit).
+Proof.
+  intros [Hk _] [Hp [Hn _]]. unfold sketch_stream, wf_stream.
+  apply Forall_app; split; [|apply Forall_app; split; [|apply Forall_app; split]].
+  - unfold zero_blocks. destruct (weqb z w0); repeat constructor.
+  - destruct omit; repeat constructor. cbn. apply kind_ok_lt, Hk.
+  - apply sparse_blocks_wf, Hp.
+  - apply sparse_blocks_wf, Hn.
+Qed.
+Lemma map_of_mapid m : map_of (mk_kind m) (mk_gamma m) (mk_off m) = m.
+Proof. destruct m; reflexivity. Qed.
+
+Lemma stream_pos_bins_app a b : stream_pos_bins (a ++ b) = stream_pos_bins a ++ stream_pos_bins b.
+Proof. unfold stream_pos_bins. now rewrite map_app, concat_app. Qed.
+Lemma stream_neg_bins_app a b : stream_neg_bins (a ++ b) = stream_neg_bins a ++ stream_neg_bins b.
+Proof. unfold stream_neg_bins. now rewrite map_app, concat_app. Qed.
+Lemma stream_zero_app a b : stream_zero (a ++ b) = stream_zero a ++ stream_zero b.
+Proof. unfold stream_zero. now rewrite map_app, concat_app. Qed.
+
+Lemma sketch_stream_content m p n z omit : sketch_wire_ok p n z ->
+  stream_pos_bins (sketch_stream m p n z omit) = p /\ stream_neg_bins (sketch_stream m p n z omit) = n
+  /\ stream_zero (sketch_stream m p n z omit) = (if weqb z w0 then [] else [z]).
+Proof.
+  intros [Hp [Hn Hz]]. unfold sketch_stream.
+  destruct (sparse_blocks_bins false p Hp) as [P1 P2]. destruct (sparse_blocks_bins true n Hn) as [N1 N2].
+  rewrite !stream_pos_bins_app, !stream_neg_bins_app, !stream_zero_app, P1, P2, N1, N2.
+  assert (Z1 : stream_pos_bins (zero_blocks z) = [] /\ stream_neg_bins (zero_blocks z) = []
+               /\ stream_zero (zero_blocks z) = (if weqb z w0 then [] else [z])).
+  { unfold zero_blocks. destruct (weqb z w0); repeat split; try reflexivity.
+    unfold stream_zero. cbn [map concat block_zero app]. rewrite wexact_wire by exact Hz. reflexivity. }
+  destruct Z1 as [Z1 [Z2 Z3]]. rewrite Z1, Z2, Z3.
+  assert (S0 : forall ng l, stream_zero (sparse_blocks ng l) = []) by (intros ng [|ic l]; reflexivity).
+  rewrite !S0. destruct omit; cbn [app]; rewrite ?app_nil_r; repeat split; reflexivity.
+Qed.
+Lemma sketch_stream_maps m p n z cur :
+  maps_chain cur (sketch_stream m p n z false) <-> block_ok cur (map_block m).
+Proof.
+  unfold sketch_stream, zero_blocks.
+  assert (S0 : forall c ng l, maps_chain c (sparse_blocks ng l)) by (intros c ng [|ic l]; cbn; tauto).
+  destruct (weqb z w0); cbn [app maps_chain block_ok block_map map_block]; rewrite maps_chain_app;
+    pose proof (S0 (Some (map_of (mk_kind m) (mk_gamma m) (mk_off m))) false p);
+    pose proof (S0 (last_mapid (Some (map_of (mk_kind m) (mk_gamma m) (mk_off m))) (sparse_blocks false p)) true n); tauto.
+Qed.
+Lemma sketch_stream_last m p n z cur : last_mapid cur (sketch_stream m p n z false) = Some m.
+Proof.
+  unfold sketch_stream, zero_blocks.
+  assert (S0 : forall c ng l, last_mapid c (sparse_blocks ng l) = c) by (intros c ng [|ic l]; reflexivity).
+  destruct (weqb z w0); cbn [app]; unfold last_mapid; cbn [fold_left block_map map_block];
+    fold (last_mapid (Some (map_of (mk_kind m) (mk_gamma m) (mk_off m))) (sparse_blocks false p ++ sparse_blocks true n));
+    rewrite last_mapid_app, !S0, map_of_mapid; reflexivity.
+Qed.
+Lemma zero_fold z0 z : fold_left wadd (if weqb z w0 then [] else [z]) z0 = wadd z0 z.
+Proof.
+  destruct (weqb z w0) eqn:E; cbn [fold_left]; [|reflexivity].
+  apply weqb_eq in E. subst z. now rewrite wadd_0_r.
+Qed.
+
+(* decode (encode s) into a receiver: merge *)
+Lemma sketch_stream_decode wx m p n z mp p0 n0 z0 : fD2 wx = true ->
+  map_valid m -> sketch_wire_ok p n z ->
+  match mp with Some m0 => map_equals m0 m = true | None => True end ->
+  dec_sketch_into wx (sp_ds mp p0 n0 z0) (serialize (sketch_stream m p n z false))
+  = DOk (sp_ds (Some m) (bmerge_list p0 p) (bmerge_list n0 n) (wadd z0 z)) [].
+Proof.
+  intros HD2 [Hk Hg] Hok Hm.
+  rewrite sparse_dec_sketch; try assumption.
+  - destruct (sketch_stream_content m p n z false Hok) as [P [N Z]].
+    rewrite P, N, Z, zero_fold, sketch_stream_last. reflexivity.
+  - apply sketch_stream_wf; [split; assumption|exact Hok].
+  - apply sketch_stream_maps. cbn [block_ok map_block]. rewrite map_of_mapid. auto.
+  - rewrite sketch_stream_last. discriminate.
+Qed.
+Theorem sketch_decode_into wx s p n mp p0 n0 z0 : fD2 wx = true ->
+  plain_sparse s p n -> map_valid (sk_map s) -> sketch_wire_ok p n (sk_zero s) ->
+  match mp with Some m0 => map_equals m0 (sk_map s) = true | None => True end ->
+  dec_sketch_into wx (sp_ds mp p0 n0 z0) (snd (enc_sketch s false))
+  = DOk (sp_ds (Some (sk_map s)) (bmerge_list p0 p) (bmerge_list n0 n) (wadd z0 (sk_zero s))) [].
+Proof.
+  intros HD2 Hps Hmv Hok Hm. rewrite (enc_sketch_grammar s p n false Hps). cbn [snd].
+  apply sketch_stream_decode; assumption.
+Qed.
+
+Theorem sketch_roundtrip wx s p n : fD2 wx = true ->
+  plain_sparse s p n -> map_valid (sk_map s) -> sketch_wire_ok p n (sk_zero s) ->
+  dec_sketch_into wx (ds_fresh None KSparse false) (snd (enc_sketch s false))
+  = DOk (sp_ds (Some (sk_map s)) (bins_of_list p) (bins_of_list n) (sk_zero s)) [].
+Proof.
+  intros HD2 Hps Hmv Hok. rewrite ds_fresh_sparse.
+  rewrite (sketch_decode_into wx s p n None [] [] w0 HD2 Hps Hmv Hok I). rewrite wadd_0_l. reflexivity.
+Qed.
+(* canonical stores (Layer A normal form, positive weights): the very same sketch comes back *)
+Corollary sketch_roundtrip_canon wx s p n : fD2 wx = true ->
+  plain_sparse s p n -> map_valid (sk_map s) -> sketch_wire_ok p n (sk_zero s) ->
+  wf p = true -> pos p -> wf n = true -> pos n ->
+  dec_sketch_into wx (ds_fresh None KSparse false) (snd (enc_sketch s false)) = DOk (ds_of_sketch s) [].
+Proof.
+  intros HD2 Hps Hmv Hok Wp Pp Wn Pn. rewrite (sketch_roundtrip wx s p n HD2 Hps Hmv Hok).
+  rewrite !bins_of_list_canon by assumption.
+  destruct Hps as [Hp [Hn Hs]]. destruct s as [m sp sn z st]. cbn in *. subst. reflexivity.
+Qed.
+
+(* decode (enc a ++ enc b) into a fresh sketch = merge of the two contents *)
+Theorem decode_concat_merge wx a pa na b pb nb : fD2 wx = true ->
+  plain_sparse a pa na -> map_valid (sk_map a) -> sketch_wire_ok pa na (sk_zero a) ->
+  plain_sparse b pb nb -> map_valid (sk_map b) -> sketch_wire_ok pb nb (sk_zero b) ->
+  map_equals (sk_map a) (sk_map b) = true ->
+  dec_sketch_into wx (ds_fresh None KSparse false) (snd (enc_sketch a false) ++ snd (enc_sketch b false))
+  = DOk (sp_ds (Some (sk_map b)) (bmerge_list (bins_of_list pa) pb) (bmerge_list (bins_of_list na) nb)
+               (wadd (sk_zero a) (sk_zero b))) [].
+Proof.
+  intros HD2 Ha Hma Hoa Hb Hmb Hob Heq. rewrite ds_fresh_sparse.
+  rewrite (enc_sketch_grammar a pa na false Ha), (enc_sketch_grammar b pb nb false Hb). cbn [snd].
+  set (sa := sketch_stream (sk_map a) pa na (sk_zero a) false).
+  set (sb := sketch_stream (sk_map b) pb nb (sk_zero b) false).
+  assert (Hca : maps_chain None sa).
+  { apply sketch_stream_maps. cbn [block_ok map_block]. destruct Hma. auto. }
+  assert (Hla : last_mapid None sa = Some (sk_map a)) by apply sketch_stream_last.
+  assert (Hcb : maps_chain (Some (sk_map a)) sb).
+  { apply sketch_stream_maps. cbn [block_ok map_block]. rewrite map_of_mapid. destruct Hmb. auto. }
+  destruct (sparse_decode_concat wx sa sb None [] [] w0 HD2) as [d1 [E1 E2]].
+  - apply sketch_stream_wf; assumption.
+  - apply sketch_stream_wf; assumption.
+  - apply maps_chain_app. rewrite Hla. split; assumption.
+  - rewrite Hla. discriminate.
+  - rewrite E2. unfold sa in E1.
+    rewrite (sketch_stream_decode wx (sk_map a) pa na (sk_zero a) None [] [] w0 HD2 Hma Hoa I) in E1.
+    injection E1 as E1. subst d1. rewrite wadd_0_l. unfold sb.
+    apply (sketch_stream_decode wx (sk_map b) pb nb (sk_zero b) (Some (sk_map a)) _ _ _ HD2 Hmb Hob Heq).
+Qed.
